@@ -72,6 +72,26 @@ extern "C" {
 
 #define caa_cpu_relax()	__asm__ __volatile__ ("rep; nop" : : : "memory")
 
+#ifdef URCU_VERIF
+#include <urcu/verif-hooks.h>
+/*
+ * Keep the original definitions reachable, then route cmm_mb() and
+ * caa_cpu_relax() through the verification hooks.
+ */
+static inline void urcu_verif_orig_cmm_mb(void)
+{
+	cmm_mb();
+}
+#undef cmm_mb
+#define cmm_mb()						\
+	do {							\
+		urcu_verif_mb();				\
+		urcu_verif_orig_cmm_mb();			\
+	} while (0)
+#undef caa_cpu_relax
+#define caa_cpu_relax()	urcu_verif_cpu_relax()
+#endif /* URCU_VERIF */
+
 #define HAS_CAA_GET_CYCLES
 
 #define rdtscll(val)							  \
